@@ -9,7 +9,7 @@ for log in logs:
     cur = None
     for line in open(log, errors='replace'):
         line = line.rstrip('\n')
-        m = re.match(r'=== (C\d+)-(\d)', line)
+        m = re.match(r'=== (C\d+)-(\d+)', line)
         if m:
             cur = (m.group(1), int(m.group(2)))
             res.setdefault(cur, {'results': {}, 'checks': {}, 'what': []})
@@ -30,7 +30,11 @@ for log in logs:
 for (pid, n), r in sorted(res.items()):
     src = '/tmp/wt-%s/out' % pid
     k = n
-    if n >= 7:
+    if n >= 9:
+        # fifth round: /tmp/w5m-<id>/out/mutant{1,2} become <id>-9 and <id>-10
+        src = '/tmp/w5m-%s/out' % pid
+        k = n - 8
+    elif n >= 7:
         # fourth round: /tmp/w4m-<id>/out/mutant{1,2} become <id>-7 and <id>-8
         src = '/tmp/w4m-%s/out' % pid
         k = n - 6
